@@ -847,3 +847,19 @@ pub fn check_c18(tier: Tier) -> i32 {
   run.set("bounds", json!({"n_values": ns.len(), "n_max": 4 * cap, "history_depth": if thorough { 3 } else { 2 }}));
   run.finish()
 }
+
+/// replay of grid cases: the grids are small, re-run the whole check without writing evidence
+pub fn replay(case: &serde_json::Value) -> i32 {
+  std::env::set_var("VERIF_REPLAY_MODE", "1");
+  match case["engine"].as_str().unwrap_or("") {
+    "c15" => check_c15(Tier::Quick),
+    "c16" | "c16-sbs" => check_c16(Tier::Quick),
+    "c17-clear" => check_c17(Tier::Quick),
+    "c18" | "c18-ro" => check_c18(Tier::Quick),
+    "c19" => check_c19(Tier::Quick),
+    e => {
+      eprintln!("machinery: unknown engine {e}");
+      2
+    }
+  }
+}
